@@ -13,12 +13,322 @@ There are no clues, so the instance space of a shape is its set of room partitio
 Bound rule (analogue of the cap rule): all partitions with <= k rooms, k maximal such that their number stays <= 6*cap
 (k >= 1; 6*cap because instances are cheap and there is no clue alphabet) - complete when k reaches the number of cells.
 With cap = 250 every shape up to 3x3 (1434 partitions) and 2x4/4x2 (456) is complete.
+
+("large", h, w, level) shapes: larger boards with a small fixed set of room partitions - structured ones (stripes, bands,
+2x2 / 2x3 / 3x2 / 3x3 blocks, a tiling by L-trominoes, nested L shapes, the whole board, the 6x6 partition published in
+norinori.py tiled over the board), partitions derived from an answer (every domino of a rule-obeying grid gets the cells
+nearest to it, or the dominoes grow one after the other, so that grid is an answer), "tight" partitions (bars of cycling
+lengths laid in a snake over the board, the ones with the fewest answers - often exactly one) and those partitions with one
+cell moved to a neighbouring room; on some boards also the partitions of a small block (2x2, 2x3, 3x2, 3x3)
+placed in the far corner, the rest of the board being one room.  They are answered by search(), an exact cell-by-cell search; selftest() compares it with the brute-force filter.
 """
+
+import itertools
 
 from . import base
 
 _CAND = {}
 _PARTS = {}
+_LARGE = {}
+_SOLS = {}
+LIMIT = 400000  # search() refuses to return more answers than this (harness error, never a verdict)
+INST_CAP = 5000  # a partition with more answers than this is not used as a large instance
+NODE_CAP = 100000  # ... nor one whose search tree is larger than this
+EXAMPLE = ["001112", "111132", "413333", "415556", "777756", "888776"]
+
+
+QUICK = ("rows", "columns", "bands-2-rows", "blocks-2x2", "blocks-2x3", "l-trominoes", "nested-l-far", "example-tiled", "halves", "whole")
+
+
+class TooMany(RuntimeError):
+    pass
+
+
+def search(h, w, rooms, limit=LIMIT, max_nodes=0):
+    """All colourings (True = black) obeying the rules for the rooms (lists of cell indices y*w+x), row-major tuples.
+
+    Cells are coloured in row-major order (of the transposed board when it is wider than high).  Cut as soon as a black
+    cell has two black neighbours, as soon as a black cell whose neighbours are all coloured has none, as soon as a room
+    has three black cells or cannot reach two any more.  Only partial colourings without a rule-obeying completion are
+    cut, so the enumeration is complete."""
+    if w > h:
+        tr = [[(i % w) * h + i // w for i in room] for room in rooms]
+        return [tuple(s[x * h + y] for y in range(h) for x in range(w)) for s in search(w, h, tr, limit, max_nodes)]
+    n = h * w
+    nbrs = []
+    for i in range(n):
+        y, x = divmod(i, w)
+        nbrs.append([yy * w + xx for yy, xx in ((y - 1, x), (y, x - 1), (y, x + 1), (y + 1, x)) if 0 <= yy < h and 0 <= xx < w])
+    complete = [[] for _ in range(n)]  # cells whose neighbourhood is fully coloured once cell i is coloured
+    for c in range(n):
+        complete[max([c] + nbrs[c])].append(c)
+    room_of = [None] * n
+    for r, room in enumerate(rooms):
+        for i in room:
+            room_of[i] = r
+    todo = [len(room) for room in rooms]
+    black = [0] * len(rooms)
+    col = [None] * n
+    out = []
+    nodes = [0]
+
+    def nblack(c):
+        return sum(1 for k in nbrs[c] if col[k])
+
+    def rec(i):
+        if i == n:
+            if len(out) >= limit:
+                raise TooMany("norinori oracle: more than %d answers on %dx%d" % (limit, h, w))
+            out.append(tuple(col))
+            return
+        nodes[0] += 1
+        if max_nodes and nodes[0] > max_nodes:
+            raise TooMany("norinori oracle: search budget exceeded on %dx%d" % (h, w))
+        r = room_of[i]
+        todo[r] -= 1
+        for v in (False, True):
+            col[i] = v
+            if v:
+                black[r] += 1
+            ok = black[r] <= 2 and black[r] + todo[r] >= 2
+            if ok and v:
+                ok = nblack(i) <= 1 and all(nblack(k) <= 1 for k in nbrs[i] if col[k])
+            if ok:
+                ok = all(nblack(c) == 1 for c in complete[i] if col[c])
+            if ok:
+                rec(i + 1)
+            if v:
+                black[r] -= 1
+        col[i] = None
+        todo[r] += 1
+
+    rec(0)
+    return out
+
+
+# ---- room partitions of large boards (rooms = sorted lists of (y, x)) -----------------------------------------
+def rooms_from_ids(h, w, f):
+    """Group the cells by f(y, x); a group that is not orthogonally connected is split into its components."""
+    groups = {}
+    for y in range(h):
+        for x in range(w):
+            groups.setdefault(f(y, x), []).append((y, x))
+    rooms = []
+    for g in groups.values():
+        rooms += [sorted(c) for c in base.components(g)]
+    return sorted(rooms)
+
+
+def structured(h, w):
+    """Named structured partitions of the h x w board (duplicates removed)."""
+
+    def ltile(y, x):  # 2x3 blocks, each cut into two L-trominoes
+        return (y // 2, x // 3, (y % 2, x % 3) in ((0, 0), (1, 0), (1, 1)))
+
+    def nested(y, x):  # nested L shapes around the top-left 2x2 square
+        return max(y, x, 1)
+
+    def nested_far(y, x):  # nested L shapes around the bottom-right 2x2 square
+        return max(h - 1 - y, w - 1 - x, 1)
+
+    def tiled(y, x):
+        return (y // 6, x // 6, EXAMPLE[y % 6][x % 6])
+
+    fs = [
+        ("rows", lambda y, x: y), ("columns", lambda y, x: x), ("bands-2-rows", lambda y, x: y // 2), ("bands-2-columns", lambda y, x: x // 2),
+        ("blocks-2x2", lambda y, x: (y // 2, x // 2)), ("blocks-2x3", lambda y, x: (y // 2, x // 3)), ("blocks-3x2", lambda y, x: (y // 3, x // 2)),
+        ("blocks-3x3", lambda y, x: (y // 3, x // 3)), ("l-trominoes", ltile), ("nested-l", nested), ("nested-l-far", nested_far),
+        ("example-tiled", tiled), ("whole", lambda y, x: 0), ("halves", lambda y, x: (2 * y >= h, 2 * x >= w)),
+        ("blocks-2x2-shifted", lambda y, x: ((y + 1) // 2, (x + 1) // 2)), ("dominoes", lambda y, x: (y, x // 2)),
+    ]
+    out = []
+    for name, f in fs:
+        rooms = rooms_from_ids(h, w, f)
+        if rooms not in [r for _, r in out]:
+            out.append((name, rooms))
+    return out
+
+
+def snake_bars(h, w, seq, vertical=False, snake=True):
+    """Rooms = bars whose lengths cycle through seq, laid along the rows - continuing backwards in the next row (snake)
+    or cut at the row end - or, with vertical, along the columns."""
+    if vertical:
+        return sorted(sorted((x, y) for y, x in r) for r in snake_bars(w, h, seq, False, snake))
+    ids = {}
+    k, left, rid = 0, seq[0], 0
+    for y in range(h):
+        for x in range(w) if (not snake or y % 2 == 0) else range(w - 1, -1, -1):
+            if left == 0:
+                k += 1
+                left = seq[k % len(seq)]
+                rid += 1
+            ids[(y, x)] = rid
+            left -= 1
+        if not snake:
+            left = 0
+    return rooms_from_ids(h, w, lambda y, x: ids[(y, x)])
+
+
+def tight(h, w, k, sizes=(2, 3, 4, 5, 6), maxlen=3):
+    """The k snake_bars partitions with the fewest (but at least one) answers, over all length sequences of at most
+    maxlen terms: boards with many small rooms, where nearly every rule instance is needed to exclude something."""
+    found = []
+    seen = []
+    for n in range(1, maxlen + 1):
+        for seq in itertools.product(sizes, repeat=n):
+            for vertical in (False, True):
+                for snake in (True, False):
+                    rooms = snake_bars(h, w, seq, vertical, snake)
+                    if rooms in seen:
+                        continue
+                    seen.append(rooms)
+                    try:
+                        sols = search(h, w, [[y * w + x for y, x in r] for r in rooms], 40, 20000)
+                    except TooMany:
+                        continue
+                    if sols:
+                        found.append((len(sols), len(found), rooms))
+    found.sort()
+    return [rooms for _, _, rooms in found[:k]]
+
+
+def voronoi(h, w, seeds):
+    """One room per seed (a set of cells): breadth-first growth from all seeds at once, a free cell joins the room that
+    reaches it first (seeds in the given order).  Every room is connected and contains its seed."""
+    owner = {}
+    queue = []
+    for k, seed in enumerate(seeds):
+        for c in sorted(seed):
+            owner[c] = k
+            queue.append(c)
+    qi = 0
+    while qi < len(queue):
+        y, x = queue[qi]
+        qi += 1
+        for c in ((y - 1, x), (y, x - 1), (y, x + 1), (y + 1, x)):
+            if 0 <= c[0] < h and 0 <= c[1] < w and c not in owner:
+                owner[c] = owner[(y, x)]
+                queue.append(c)
+    return rooms_from_ids(h, w, lambda y, x: owner[(y, x)])
+
+
+def grown(h, w, seeds):
+    """One room per seed, grown one after the other: the first seed takes every free cell it can reach, then the second
+    one ...  (most rooms stay as small as their seed).  Every room is connected and contains its seed."""
+    owner = {}
+    for k, seed in enumerate(seeds):
+        for c in seed:
+            owner[c] = k
+    for k, seed in enumerate(seeds):
+        queue = sorted(seed)
+        qi = 0
+        while qi < len(queue):
+            y, x = queue[qi]
+            qi += 1
+            for c in ((y - 1, x), (y, x - 1), (y, x + 1), (y + 1, x)):
+                if 0 <= c[0] < h and 0 <= c[1] < w and c not in owner:
+                    owner[c] = k
+                    queue.append(c)
+    return rooms_from_ids(h, w, lambda y, x: owner[(y, x)])
+
+
+def moved(h, w, rooms, k):
+    """Up to k partitions obtained by moving one cell into a neighbouring room (the donor stays connected and non-empty):
+    evenly spaced among all such moves in row-major order."""
+    room_of = {c: i for i, r in enumerate(rooms) for c in r}
+    moves = []
+    for y in range(h):
+        for x in range(w):
+            for c in ((y, x + 1), (y + 1, x), (y, x - 1), (y - 1, x)):
+                if c in room_of and room_of[c] != room_of[(y, x)]:
+                    rest = [d for d in rooms[room_of[(y, x)]] if d != (y, x)]
+                    if rest and base.cells_connected(rest):
+                        moves.append(((y, x), room_of[c]))
+    out = []
+    for cell, dst in spaced(moves, k):
+        rs = [[d for d in r if d != cell] for r in rooms]
+        rs[dst] = sorted(rs[dst] + [cell])
+        out.append(sorted(rs))
+    return out
+
+
+def spaced(items, k):
+    """First, last and evenly spaced elements (k in total, fewer when there are fewer items)."""
+    if len(items) <= k:
+        return list(items)
+    if k == 1:
+        return [items[len(items) // 2]]
+    return [items[(len(items) - 1) * j // (k - 1)] for j in range(k)]
+
+
+def cornered(h, w, bh, bw, part):
+    """The partition part (rooms of (y, x)) of a bh x bw board placed in the far (bottom-right) corner of the h x w
+    board; the rest of the board is one more room (its components, should it fall apart)."""
+    where = {}
+    for k, room in enumerate(part):
+        for y, x in room:
+            where[(y + h - bh, x + w - bw)] = k
+    return rooms_from_ids(h, w, lambda y, x: where.get((y, x), -1))
+
+
+def corner_family(h, w, level):
+    """Every (thorough) / some (quick) partitions of a small block, in the far corner of the board."""
+    plan = [(2, 3, 5), (3, 2, 5)] if level == 0 else [(2, 2, 12), (2, 3, 30), (3, 2, 30), (3, 3, 60)]
+    out = []
+    for bh, bw, k in plan:
+        if bh < h and bw < w and h * w >= 24:
+            for part in spaced(partitions(bh, bw, 12000), k):
+                out.append(cornered(h, w, bh, bw, [[(i // bw, i % bw) for i in b] for b in part]))
+    return out
+
+
+def large_instances(h, w, level):
+    """The fixed instance set of a large board (cached: the driver asks for it once per shard)."""
+    key = (h, w, level)
+    if key in _LARGE:
+        return _LARGE[key]
+    out = []
+
+    def add(rooms):
+        if rooms in out:
+            return None
+        try:
+            sols = search(h, w, [[y * w + x for y, x in r] for r in rooms], INST_CAP, NODE_CAP)
+        except TooMany:
+            return None
+        _SOLS[repr([[list(c) for c in r] for r in rooms])] = sols
+        out.append(rooms)
+        return sols
+
+    pool = []  # answers of the structured partitions: the grids the derived partitions are built from
+    named = structured(h, w)
+    if level == 0:
+        named = [(nm, r) for nm, r in named if nm in QUICK]
+    for name, rooms in named:
+        sols = add(rooms)
+        if sols:
+            pool += spaced(sols, 3)
+    grids = []
+    for g in pool:
+        if g not in grids and any(g):
+            grids.append(g)
+    derived = []
+    for g in spaced(grids, 1 if level == 0 else 8):
+        seeds = sorted(sorted(c) for c in base.components([(i // w, i % w) for i in range(h * w) if g[i]]))
+        for rooms in (voronoi(h, w, seeds), grown(h, w, seeds), grown(h, w, seeds[::-1])):
+            if add(rooms) is not None:
+                derived.append(rooms)
+    tights = tight(h, w, 3 if level == 0 else 8, maxlen=2 if level == 0 else 3)
+    for rooms in tights:
+        add(rooms)
+    for rooms in tights + derived[: 1 if level == 0 else 6] + [r for nm, r in named if nm in ("example-tiled", "blocks-2x3", "nested-l")][: 1 if level == 0 else 3]:
+        for m in moved(h, w, rooms, 1 if level == 0 else 4):
+            add(m)
+    if (h, w) in ((6, 6),) or (level > 0 and (h, w) in ((4, 6), (6, 4))):
+        for rooms in corner_family(h, w, level):
+            add(rooms)
+    _LARGE[key] = [{"height": h, "width": w, "blocks": [[list(c) for c in r] for r in rooms]} for rooms in out]
+    return _LARGE[key]
 
 
 def candidates(h, w):
@@ -73,9 +383,16 @@ class Norinori(base.Rule):
         s = [(1, 1), (1, 2), (2, 1), (1, 3), (3, 1), (1, 4), (4, 1), (2, 2), (2, 3), (3, 2), (2, 4), (4, 2), (3, 3)]
         if tier != "quick":
             s += [(1, 5), (5, 1), (1, 6), (6, 1), (2, 5), (5, 2)]
-        return s
+        big = [(5, 5), (6, 6), (4, 6), (6, 4), (1, 12), (12, 1), (2, 10), (10, 2)]
+        if tier != "quick":
+            big = [(4, 4)] + big + [(4, 5), (5, 4), (5, 6), (6, 5), (7, 7), (8, 8), (3, 8), (8, 3), (1, 16), (16, 1), (2, 12), (12, 2), (5, 8), (8, 5), (6, 12), (12, 6)]
+        return s + [("large", h, w, 0 if tier == "quick" else 1) for h, w in big]
 
     def instances(self, shape, cap):
+        if shape[0] == "large":
+            for p in large_instances(shape[1], shape[2], shape[3]):
+                yield p
+            return
         h, w = shape
         for part in partitions(h, w, cap):
             yield {"height": h, "width": w, "blocks": [[[i // w, i % w] for i in block] for block in part]}
@@ -90,6 +407,9 @@ class Norinori(base.Rule):
     def readings(self, p):
         h, w = p["height"], p["width"]
         rooms = [[y * w + x for y, x in block] for block in p["blocks"]]
+        if h * w > 12:
+            key = repr(p["blocks"])  # answers computed while the instance set was built (same function)
+            return [_SOLS[key] if key in _SOLS else search(h, w, rooms)]
         out = []
         for col in candidates(h, w):
             if all(sum(1 for i in room if col[i]) == 2 for room in rooms):
@@ -97,12 +417,42 @@ class Norinori(base.Rule):
         return [out]
 
     def example(self):
-        b = ["001112", "111132", "413333", "415556", "777756", "888776"]
+        b = EXAMPLE
         rooms = {}
         for y in range(6):
             for x in range(6):
                 rooms.setdefault(b[y][x], []).append([y, x])
         return {"height": 6, "width": 6, "blocks": list(rooms.values())}, "cspuz/puzzle/norinori.py _main() (puzsq pid=7919, 6x6; checked by solvability only: too large to enumerate)"
+
+
+def selftest():
+    """search() against the brute-force filter: every partition of the small boards, structured ones on 3x4 .. 4x4."""
+    for h, w in ((1, 1), (1, 2), (2, 1), (1, 4), (4, 1), (2, 2), (2, 3), (3, 2), (2, 4), (4, 2), (3, 3)):
+        for part in partitions(h, w, 250):
+            rooms = [list(b) for b in part]
+            want = [c for c in candidates(h, w) if all(sum(1 for i in r if c[i]) == 2 for r in rooms)]
+            assert sorted(search(h, w, rooms)) == sorted(want), (h, w, part)
+    for h, w in ((3, 4), (4, 3), (2, 6), (6, 2), (1, 9), (3, 5), (5, 3), (4, 4)):
+        named = structured(h, w)
+        parts = [r for _, r in named]
+        for r in parts[:6]:
+            parts += moved(h, w, r, 3)
+        for rooms in parts:
+            assert sorted(c for r in rooms for c in r) == [(y, x) for y in range(h) for x in range(w)]
+            assert all(base.cells_connected(r) for r in rooms)
+            idx = [[y * w + x for y, x in r] for r in rooms]
+            want = [c for c in candidates(h, w) if all(sum(1 for i in r if c[i]) == 2 for r in idx)]
+            got = search(h, w, idx)
+            assert sorted(got) == sorted(want), (h, w, rooms)
+            for g in got[:2]:  # a partition derived from an answer keeps that answer
+                if any(g):
+                    seeds = sorted(sorted(c) for c in base.components([(i // w, i % w) for i in range(h * w) if g[i]]))
+                    for v in (voronoi(h, w, seeds), grown(h, w, seeds)):
+                        assert all(base.cells_connected(r) for r in v)
+                        assert g in search(h, w, [[y * w + x for y, x in r] for r in v])
+    # the published 6x6 example has exactly one answer
+    ex = RULE.example()[0]
+    assert len(search(6, 6, [[y * 6 + x for y, x in b] for b in ex["blocks"]])) == 1
 
 
 RULE = Norinori()
